@@ -149,7 +149,7 @@ def relevant(rec, case):
 
 
 SPEC = {
-    'lean': ['C05'],
+    'lean': ['C05', 'NatSem'],
     'cases': cases,
     'relevant': relevant,
     'stream': 'C05 loop ladder',
